@@ -297,7 +297,7 @@ func lastJournal(path string) (idx, sub int, ok bool) {
 func (r *Runner) env(race bool, extra ...string) []string {
 	env := append(os.Environ(), "VERIF_DIR="+r.VerifDir)
 	if race {
-		env = append(env, "GORACE=halt_on_error=0 log_path="+filepath.Join(r.workDir, "racelog"), "VERIF_IS_RACE=1")
+		env = append(env, "GORACE=halt_on_error=0 exitcode=0 log_path="+filepath.Join(r.workDir, "racelog"), "VERIF_IS_RACE=1")
 	}
 	return append(env, extra...)
 }
@@ -315,7 +315,7 @@ func (r *Runner) runShard(filter string, shard, nsh int, cases map[int]Case, agg
 	rIdx, rSub := 0, 0
 	journal := filepath.Join(r.workDir, fmt.Sprintf("journal.%s.%d", filter, shard))
 	outPath := filepath.Join(r.workDir, fmt.Sprintf("out.%s.%d", filter, shard))
-	restarts := 0
+	restarts, fatals, stalls := 0, 0, 0
 	for {
 		stderrPath := filepath.Join(r.workDir, fmt.Sprintf("stderr.%s.%d.%d", filter, shard, restarts))
 		ef, _ := os.Create(stderrPath)
@@ -378,6 +378,7 @@ func (r *Runner) runShard(filter string, shard, nsh int, cases map[int]Case, agg
 		c := cases[idx]
 		c.Sub = sub
 		if stalled {
+			stalls++
 			agg.mu.Lock()
 			agg.Inconclusive = append(agg.Inconclusive, fmt.Sprintf("watchdog: no progress for %ds in case %d sub %d", stall, idx, sub))
 			agg.mu.Unlock()
@@ -394,6 +395,22 @@ func (r *Runner) runShard(filter string, shard, nsh int, cases map[int]Case, agg
 			agg.mu.Unlock()
 		}
 		restarts++
+		if !stalled {
+			fatals++
+		}
+		if fatals > 12 {
+			// the verdict is already "violated"; do not spend the budget on dying again and again
+			agg.mu.Lock()
+			agg.Inconclusive = append(agg.Inconclusive, fmt.Sprintf("shard %s/%d: worker died %d times, remainder of the shard not run", filter, shard, fatals))
+			agg.mu.Unlock()
+			return
+		}
+		if stalls > 1 {
+			agg.mu.Lock()
+			agg.Inconclusive = append(agg.Inconclusive, fmt.Sprintf("shard %s/%d: watchdog fired %d times, remainder of the shard not run", filter, shard, stalls))
+			agg.mu.Unlock()
+			return
+		}
 		if restarts > 400 {
 			agg.mu.Lock()
 			agg.Inconclusive = append(agg.Inconclusive, fmt.Sprintf("shard %s/%d: more than 400 restarts, remainder not run", filter, shard))
